@@ -50,3 +50,20 @@ Theorem C08_earlier_events_skipped : forall c inst u st fn n e s r s1,
   step_handler c inst u st fn n e s = (Ok tt, s1).
 Proof. exact stale_event_skipped. Qed.
 Print Assumptions C08_earlier_events_skipped.
+
+(* "While a run is Paused, Cancelled, RequestedDataDeleted or DataDeleted ... its status and object do not change (other than the
+   data-deletion rewrite)", read off the ghost history of committed writes: a committed write that replaced a STOPPED write of its run
+   keeps status and object, or is the data-deletion rewrite holding the scrub of the stored object *)
+From WF Require Import proofs.EffectFacts proofs.HistVersions proofs.Determined.
+Theorem C08_persisted_stopped_run_is_frozen : forall c ops, hist_ok ops ->
+  forall h1 x h2 p, w_hist (fst (run_ops c ops)) = h1 ++ x :: h2 -> lastrun h1 x = Some p -> rs_stopped (r_state p) = true ->
+  r_status x = r_status p /\ (r_obj x = r_obj p \/ (r_state x = RSDataDeleted /\ r_obj x = scrub_obj c (r_obj p))).
+Proof.
+  intros c ops H h1 x h2 p E L Hs. pose proof (history_is_failure_free_path c ops H h1 x h2 E) as F. rewrite L in F.
+  pose proof (persisted_sequence_facts c ops H h1 x h2 E) as G. rewrite L in G.
+  split.
+  - destruct (TokenFacts.sf_status _ _ _ G) as [S|(_ & S & _)]; [exact S|congruence].
+  - destruct (TokenFacts.sf_object _ _ _ G) as [O|[O|(_ & O)]]; [left; exact O| |congruence].
+    right. split; [exact O|]. destruct F as [(_ & _ & K)|[(_ & _ & S)|([A|A] & _)]]; [contradiction|exact S|congruence|congruence].
+Qed.
+Print Assumptions C08_persisted_stopped_run_is_frozen.
